@@ -7,9 +7,12 @@ package c05
 
 import (
 	"context"
+	"encoding/json"
 	"fmt"
 	"math/rand"
 	"os"
+	"os/exec"
+	"path/filepath"
 	"runtime"
 	"runtime/debug"
 	"sort"
@@ -62,6 +65,10 @@ func Run(r *ev.Run, replay string) {
 		childMain(r)
 		return
 	}
+	if f := os.Getenv("C05_CLEAN_BASELINE"); f != "" {
+		cleanChild(f)
+		return
+	}
 	r.MaxSamples = 3
 	r.Rule = "generated npm/Maven/PyPI universes (the generators of C06/C07/C08); per universe and root: baseline = encoding of Resolve on a fresh client and resolver; then (repeat) the same objects again, (history) all roots in two shuffled orders on one client+resolver, (insertion order) clients built by AddVersion in 3 random orders, (aliasing) a defensive-copy client wrapper, each compared with the baseline; the client's answers (Versions, Version, Requirements, MatchingVersions for every key of the universe, in order) are dumped before and after every resolution and must not change, nor may the dump itself change them; (concurrency, -race child) 2/4/16 goroutines resolve shuffled root lists on a shared resolver and client (PyPI: one resolver per goroutine over a shared client) with seeded yields at the client boundary, results compared with the baseline, race reports with a deps.dev frame counted. Non-trivial = distinct (universe, root) whose resolution touches >= 3 packages."
 	r.Assumptions = []string{"results are compared through an order- and numbering-independent encoding of the graph (and error text), not through Graph.Canon, so a Canon defect cannot mask or fake a verdict", "resolutions that exhaust the logical step budget are compared as such (same verdict required) but their graphs are not", "the race detector only reports races it executed"}
@@ -108,6 +115,7 @@ func Run(r *ev.Run, replay string) {
 		}
 	}
 	wg.Wait()
+	cleanProcessPass(r)
 	for _, sd := range systems() {
 		r.Gate("universes:"+sd.name, int64(n*3/4))
 		r.Gate("nontrivial:"+sd.name, int64(n/2))
@@ -283,6 +291,7 @@ func sequential(r *ev.Run, sd sysDef, u *uni.Universe, rng *rand.Rand, maxRoots 
 			}
 		}
 	}
+	collectForCleanProcess(r, sd, u, roots, base)
 	reported := map[string]bool{}
 	differ := func(step string, rt resolve.VersionKey, got string) {
 		r.Eval(1)
@@ -692,4 +701,131 @@ func tail(s string, n int) string {
 		return s[len(s)-n:]
 	}
 	return s
+}
+
+// ---- clean-process baseline -------------------------------------------------
+//
+// Everything above compares results obtained inside one busy process: state
+// that lives in a package-level variable of the library (a cache of parsed
+// requirements or exclusions, say) is the same for the baseline and for the
+// runs compared with it. A sample of the universes is therefore resolved once
+// more in a fresh process that does nothing else, in reverse order, and the
+// answers must be the ones this process gave: a pure function of universe and
+// root cannot depend on what the process did before.
+
+type cleanCase struct {
+	Sys      string        `json:"sys"`
+	Universe *uni.Universe `json:"universe"`
+	Roots    [][2]string   `json:"roots"`
+	Base     []string      `json:"base,omitempty"` // parent: encoding per root; child: the same, recomputed
+}
+
+var (
+	cleanMu    sync.Mutex
+	cleanQueue = map[string][]cleanCase{}
+)
+
+func collectForCleanProcess(r *ev.Run, sd sysDef, u *uni.Universe, roots []resolve.VersionKey, base map[resolve.VersionKey]string) {
+	limit := r.N(80, 600)
+	cleanMu.Lock()
+	defer cleanMu.Unlock()
+	if len(cleanQueue[sd.name]) >= limit {
+		return
+	}
+	c := cleanCase{Sys: sd.name, Universe: u}
+	for _, rt := range roots {
+		c.Roots = append(c.Roots, [2]string{rt.Name, rt.Version})
+		c.Base = append(c.Base, base[rt])
+	}
+	cleanQueue[sd.name] = append(cleanQueue[sd.name], c)
+}
+
+func cleanProcessPass(r *ev.Run) {
+	var all []cleanCase
+	for _, sd := range systems() {
+		q := cleanQueue[sd.name]
+		for i := len(q) - 1; i >= 0; i-- { // the other way round: another history
+			all = append(all, q[i])
+		}
+	}
+	if len(all) == 0 {
+		return
+	}
+	dir := os.Getenv("VERIF_BUILD")
+	if dir == "" {
+		dir = os.TempDir()
+	}
+	in := filepath.Join(dir, fmt.Sprintf("c05-clean-%d.json", os.Getpid()))
+	out := in + ".out"
+	defer os.Remove(in)
+	defer os.Remove(out)
+	send := make([]cleanCase, len(all))
+	for i, c := range all {
+		send[i] = cleanCase{Sys: c.Sys, Universe: c.Universe, Roots: c.Roots}
+	}
+	b, _ := json.Marshal(send)
+	if err := os.WriteFile(in, b, 0o644); err != nil {
+		r.Inconclusive("clean-process baseline: " + err.Error())
+		return
+	}
+	self, err := os.Executable()
+	if err != nil {
+		r.Inconclusive("clean-process baseline: " + err.Error())
+		return
+	}
+	cmd := exec.Command(self, "C05", r.Tier)
+	cmd.Env = append(os.Environ(), "VERIF_INPROC=1", "C05_CLEAN_BASELINE="+in)
+	if msg, err := cmd.CombinedOutput(); err != nil {
+		r.Inconclusive(fmt.Sprintf("clean-process baseline child failed: %v: %s", err, tail(string(msg), 400)))
+		return
+	}
+	var got []cleanCase
+	if err := ev.ReadJSON(out, &got); err != nil || len(got) != len(all) {
+		r.Inconclusive("clean-process baseline: unreadable answer")
+		return
+	}
+	for i, c := range all {
+		for k := range c.Roots {
+			r.Eval(1)
+			r.Count("clean_process_comparisons:"+c.Sys, 1)
+			if k < len(got[i].Base) && got[i].Base[k] == c.Base[k] {
+				continue
+			}
+			g := "<missing>"
+			if k < len(got[i].Base) {
+				g = got[i].Base[k]
+			}
+			r.Violation("C05:"+c.Sys+":process-history", fmt.Sprintf("%s: resolving %s@%s in a fresh process that did nothing else gives another result than in this process, which had resolved many other universes before\n--- this process\n%s\n--- fresh process\n%s", c.Sys, c.Roots[k][0], c.Roots[k][1], c.Base[k], g),
+				Case{Sys: c.Sys, Universe: c.Universe, Root: c.Roots[k], Step: "process-history"})
+			break
+		}
+	}
+}
+
+// cleanChild is the fresh process: it resolves what it is given, in the order
+// given, each root on a fresh client and resolver, and writes the encodings.
+func cleanChild(in string) {
+	var cases []cleanCase
+	if err := ev.ReadJSON(in, &cases); err != nil {
+		fmt.Fprintln(os.Stderr, "clean child:", err)
+		os.Exit(3)
+	}
+	defs := map[string]sysDef{}
+	for _, sd := range systems() {
+		defs[sd.name] = sd
+	}
+	for i := range cases {
+		c := &cases[i]
+		sd := defs[c.Sys]
+		for _, rt := range c.Roots {
+			c.Base = append(c.Base, run(sd.mk, c.Universe.Client(nil), c.Universe.StepBudget(), c.Universe.VK(rt[0], rt[1], resolve.Concrete)))
+		}
+		c.Universe = nil
+	}
+	b, _ := json.Marshal(cases)
+	if err := os.WriteFile(in+".out", b, 0o644); err != nil {
+		fmt.Fprintln(os.Stderr, "clean child:", err)
+		os.Exit(3)
+	}
+	os.Exit(0)
 }
